@@ -36,11 +36,75 @@ type c11Job struct {
 	diff    string // comparison with the reference, computed as soon as the run ends (file contents are then dropped)
 	diff2   string
 	goFiles int
+	between []string     // "interleaved" jobs: flags of the run made in between, in the same directory and home
+	base    *engine.Spec // jobs whose spec is another spelling of the configuration: the configuration as the reference ran it
 }
 
 type c11Replay struct {
-	Spec  engine.Spec `json:"spec"`
-	Rerun bool        `json:"rerun"`
+	Spec    engine.Spec  `json:"spec"`
+	Rerun   bool         `json:"rerun"`
+	Ref     *engine.Spec `json:"ref,omitempty"`     // the reference is this invocation, not Spec under the identity plan
+	Between []string     `json:"between,omitempty"` // Spec is run, then the same with these flags, then Spec again: the third run is judged
+}
+
+// c11CompareKept: what the reference run wrote must be there again, byte for byte
+// (files that a run with other flags left next to them are not this run's business).
+func c11CompareKept(ref, got *engine.Result) string {
+	e1, c1, f1 := c11Observable(ref)
+	e2, c2, f2 := c11Observable(got)
+	var d []string
+	if got.TimedOut {
+		d = append(d, "run did not terminate within the watchdog")
+	}
+	if e1 != e2 {
+		d = append(d, fmt.Sprintf("exit status %d vs %d", e1, e2))
+	}
+	if c1 != c2 {
+		d = append(d, fmt.Sprintf("conflict count %s vs %s", c1, c2))
+	}
+	sub := map[string][]byte{}
+	for name := range f1 {
+		if data, ok := f2[name]; ok {
+			sub[name] = data
+		}
+	}
+	if df := engine.DiffFiles(f1, sub); len(df) > 0 {
+		d = append(d, "generated .go files differ: "+strings.Join(df, " "))
+	}
+	return strings.Join(d, "; ")
+}
+
+func toggleFlag(flags []string, f string) []string {
+	var out []string
+	found := false
+	for _, x := range flags {
+		if x == f {
+			found = true
+			continue
+		}
+		out = append(out, x)
+	}
+	if !found {
+		out = append(out, f)
+	}
+	return out
+}
+
+// c11Interleaved: Spec, then the same invocation with other flags, then Spec again.
+func c11Interleaved(w *engine.Worker, bin string, spec *engine.Spec, between []string, timeout time.Duration) (first, third *engine.Result, err error) {
+	if first, err = w.Exec(bin, spec, timeout); err != nil {
+		return
+	}
+	s2 := *spec
+	s2.Flags = between
+	s2.Pre = "keep"
+	if _, err = w.Exec(bin, &s2, timeout); err != nil {
+		return
+	}
+	s3 := *spec
+	s3.Pre = "keep"
+	third, err = w.Exec(bin, &s3, timeout)
+	return
 }
 
 func c11FlagSets(tier string) [][]string {
@@ -239,9 +303,26 @@ func RunC11(c *Ctx) error {
 			j.spec.Flags = fl
 			j.spec.GrammarDir = "."
 		}
+		if len(cf.flags) >= 1 {
+			b := base
+			jobs[len(jobs)-1].base = &b
+		}
 		if cf.pkg != "" && cf.out != "" {
 			addPlan("p-before-o", simrt.MapPlan{Policy: "identity"}, false)
 			jobs[len(jobs)-1].spec.PkgFirst = true
+			b := base
+			jobs[len(jobs)-1].base = &b
+		}
+		if cf.out == "" && (gc.IR != nil && gc.IR.Ambiguous || c.Tier == "thorough" || ci%4 == 0) && !big0(c, gc) {
+			// the same invocation before and after a run with OTHER flags in the same
+			// directory and home (whatever a run leaves behind, there or elsewhere, must
+			// not leak into a run with different flags)
+			addPlan("interleaved", simrt.MapPlan{Policy: "identity"}, false)
+			jobs[len(jobs)-1].between = toggleFlag(cf.flags, "-a")
+			if c.Tier == "thorough" {
+				addPlan("interleaved", simrt.MapPlan{Policy: "identity"}, false)
+				jobs[len(jobs)-1].between = toggleFlag(cf.flags, "-zip")
+			}
 		}
 		if !big {
 			addPlan("rotate", simrt.MapPlan{Policy: "rotate", Seed: r.U64()}, false)
@@ -267,8 +348,17 @@ func RunC11(c *Ctx) error {
 	c.Logf("%d grammars x %d flag sets = %d configurations, %d planned runs", len(cases), len(flagSets), len(cfgs), len(jobs))
 	err = c.ShardedDo(len(jobs), func(i int) int { return jobs[i].fi }, func(w, i int) error {
 		j := jobs[i]
-		r, err := workers[w].Exec(g.Sim, &j.spec, timeout)
-		if err != nil {
+		var r *engine.Result
+		var err error
+		if j.between != nil {
+			var third *engine.Result
+			if r, third, err = c11Interleaved(workers[w], g.Sim, &j.spec, j.between, timeout); err != nil {
+				return err
+			}
+			j.second = third
+			j.diff2 = c11CompareKept(cfgs[j.fi].ref, third)
+			third.Files = nil
+		} else if r, err = workers[w].Exec(g.Sim, &j.spec, timeout); err != nil {
 			return err
 		}
 		j.res = r
@@ -426,7 +516,9 @@ func RunC11(c *Ctx) error {
 		}
 		if j.second != nil {
 			evals++
-			if j.diff2 != "" {
+			if j.diff2 != "" && j.between != nil {
+				c11Report(c, g, workers[0], j, cf.ref, j.diff2, true)
+			} else if j.diff2 != "" {
 				c11Report(c, g, workers[0], j, cf.ref, "second run in the same directory: "+j.diff2, true)
 			}
 		}
@@ -505,6 +597,18 @@ func c11Report(c *Ctx, g *sut.Gocc, w *engine.Worker, j *c11Job, ref *engine.Res
 		c.Report(&Violation{Class: "output-differs", Key: map[string]string{"grammar": j.spec.GrammarID}, Detail: detail, Plan: c11Replay{Spec: j.spec, Rerun: second}})
 		return
 	}
+	if j.between != nil && second {
+		c.Report(&Violation{Class: "output-differs", Key: map[string]string{"grammar": j.spec.GrammarID, "site": "other-flags-in-between"},
+			Detail: fmt.Sprintf("%s %v: run, then run with %v in the same directory and home, then run again with %v: the third run is not the first (state kept across runs leaks between flag sets): %s", j.spec.GrammarID, j.spec.Flags, j.between, j.spec.Flags, detail),
+			Plan:   c11Replay{Spec: j.spec, Between: j.between}})
+		return
+	}
+	if j.base != nil && !second {
+		c.Report(&Violation{Class: "output-differs", Key: map[string]string{"grammar": j.spec.GrammarID, "site": "same-invocation-spelled-differently"},
+			Detail: fmt.Sprintf("%s: the invocation %s and the invocation %s mean the same configuration and everything simulated is identical, yet: %s", j.spec.GrammarID, c11Spelling(j.base), c11Spelling(&j.spec), detail),
+			Plan:   c11Replay{Spec: j.spec, Ref: j.base}})
+		return
+	}
 	spec := j.spec
 	culprit := ""
 	// Is the output unstable even when every simulated choice is the reference's?
@@ -571,6 +675,27 @@ func c11Report(c *Ctx, g *sut.Gocc, w *engine.Worker, j *c11Job, ref *engine.Res
 		Detail: fmt.Sprintf("%s %v policy=%s: %s", spec.GrammarID, spec.Flags, spec.Plan.Map.Policy, detail), Plan: c11Replay{Spec: spec, Rerun: second}})
 }
 
+func c11Spelling(s *engine.Spec) string {
+	a := append([]string{}, s.Flags...)
+	o, p := "", ""
+	if s.OutSpec != "" {
+		o = " -o " + s.OutSpec
+	}
+	if s.Pkg != "" {
+		p = " -p " + s.Pkg
+	}
+	if s.PkgFirst {
+		o, p = p, o
+	}
+	gd := ""
+	if s.GrammarDir != "" {
+		gd = s.GrammarDir + "/"
+	}
+	return "`gocc " + strings.TrimSpace(strings.Join(a, " ")+o+p) + " " + gd + s.GrammarFile + "`"
+}
+
+func big0(c *Ctx, gc *GrammarCase) bool { return c.Tier == "quick" && gc.IR != nil && gc.IR.Big }
+
 func c11Replay1(c *Ctx, g *sut.Gocc, w *engine.Worker) error {
 	var v struct {
 		Plan  c11Replay `json:"plan"`
@@ -600,6 +725,9 @@ func c11Replay1(c *Ctx, g *sut.Gocc, w *engine.Worker) error {
 		return nil
 	}
 	refSpec := spec
+	if v.Plan.Ref != nil {
+		refSpec = *v.Plan.Ref
+	}
 	if spec.Plan == nil {
 		bin = g.Real
 	} else {
@@ -616,6 +744,17 @@ func c11Replay1(c *Ctx, g *sut.Gocc, w *engine.Worker) error {
 		reps = 20 // observation of the real binary: a handful of runs
 	}
 	for i := 0; i < reps; i++ {
+		if v.Plan.Between != nil {
+			_, third, err := c11Interleaved(w, bin, &spec, v.Plan.Between, 120*time.Second)
+			if err != nil {
+				return Harnessf("%v", err)
+			}
+			if d := c11CompareKept(ref, third); d != "" {
+				c.Report(&Violation{Class: v.Class, Key: map[string]string{"grammar": spec.GrammarID}, Detail: d, Plan: v.Plan})
+				return nil
+			}
+			continue
+		}
 		r, err := w.Exec(bin, &spec, 120*time.Second)
 		if err != nil {
 			return Harnessf("%v", err)
